@@ -151,7 +151,7 @@ def check(run, F, tier):
     roots, fns = decoders(F)
     ledger = load_ledger("C04")
     r1 = run.rule("C04-R1", "no undischarged panic site in any decoder function", floor=300)
-    r6 = run.rule("C04-R6", "decoders never report more consumed than the input holds", floor=60)
+    r6 = run.rule("C04-R6", "decoders never report more consumed than the input holds", floor=45)
     r5 = run.rule("C04-R5", "id-carrying parsers reject the zero identifier; PUBLISH parsers reject QoS 3", floor=14)
     mech = aud = 0
     used = set()
